@@ -323,9 +323,8 @@ func (e *stakeEp) block(absent map[int]bool, mid []stakeOp, txs []stakeOp, dt ti
 				w.app.CustomSlashingKeeper.Jail(ctx, e.val(ctx, m.v).GetConsAddr())
 			case "unjail":
 				h := staking.NewApplyUnjailValidatorProposalHandler(w.app.CustomStakingKeeper, w.app.CustomGovKeeper)
-				err = withCache(ctx, func(c sdk.Context) error {
-					return h.Apply(c, 1, stakingtypes.NewUnjailValidatorProposal(w.addrs[0], sdk.ValAddress(w.addrs[e.acc(m.v)]), "ref"), sdk.ZeroDec())
-				})
+				_ = h
+				err = w.Enact(ctx, 1, stakingtypes.NewUnjailValidatorProposal(w.addrs[0], sdk.ValAddress(w.addrs[e.acc(m.v)]), "ref"))
 			case "rankreset":
 				err = w.app.CustomSlashingKeeper.ResetWholeValidatorRank(ctx)
 			case "kpause":
